@@ -14,7 +14,8 @@
                         (lists convert it, negative counts from the end; maps use the text s as key).
                         For a non-numeric text, i is its position in the executor's fixed key pool: it
                         only fixes the canonical order (Rank) of map entries in the abstract form.  A typed
-                        integer key of a map, written (num n), is such a text too (never used on lists).
+                        integer key of a map, written (num n), is such a text too (never used on lists), and so is
+                        the key $nil (on a list it is a bad index: the step raises).
 
    State   store  variable -> value
            alias  sequence of [name, kind, val]   what each alias reader yields (never touched)
